@@ -77,7 +77,7 @@ func plan() []planItem {
 		return []planItem{{i, n, d}}
 	}
 	if report.Tier() == "thorough" {
-		return []planItem{{0, 3, 7}, {1, 3, 7}, {2, 2, 7}, {3, 1, 9}, {4, 7, 6}}
+		return []planItem{{0, 4, 7}, {1, 4, 7}, {2, 1, 6}, {3, 2, 8}, {4, 5, 6}}
 	}
 	return []planItem{{0, 7, 6}, {1, 7, 6}, {2, 2, 5}}
 }
@@ -157,6 +157,11 @@ type env struct {
 	esc0       *big.Int
 	shardDepth int
 	txCache    map[string]sdk.Tx
+	// states deeper than keepDepth drop their store overlay and are rebuilt from these ancestors (see ops)
+	keepDepth  int
+	anchors    map[string]*explore.Node
+	rebuilding bool
+	rebuilt    int
 }
 
 func main() {
@@ -216,6 +221,12 @@ func run(r *report.Run, shard, nshards int, replayFile string) {
 	if sd, _ := strconv.Atoi(os.Getenv("C02_SHARDDEPTH")); sd > 0 {
 		e.shardDepth = sd
 	}
+	if r.Thorough() && sl.Depth >= 6 && replayFile == "" {
+		e.keepDepth = sl.Depth - 3
+	}
+	if kd, _ := strconv.Atoi(os.Getenv("C02_KEEPDEPTH")); kd > 0 {
+		e.keepDepth = kd
+	}
 
 	r.Rule = "BFS over Vote(v,claim) (really signed MsgSendToPalomaClaim / MsgBatchSendToRemoteClaim txs through ante + router) for competing claims cA,cB (deposits of 7 / 9, same nonce 1), cX (batch-executed, nonce 1), cC (deposit, nonce 2) [thorough: + cU, deposit of an unregistered token, nonce 1]; Tally (skyway.EndBlocker); CatchUp (skyway.EndBlocker at height 150 => UpdateValidatorNoncesToLatest); Power(v,p) p in {0, p0, 2*p0} (staking last-validator-power + last-total-power); Override(k) k in {last-1,last,last+1} (MsgNonceOverrideProposal by the gov authority); one search per stake distribution; a state is distinct by (skyway store, last powers, ghost voter sets / observed set / epoch cursor)"
 	r.Assumptions = []string{
@@ -248,6 +259,7 @@ func run(r *report.Run, shard, nshards int, replayFile string) {
 	if os.Getenv("C02_VERBOSE") != "" {
 		fmt.Fprintf(os.Stderr, "c02 worker %s %d/%d: depth %d/%d states=%d transitions=%d capped=%v %.1fs\n", e.d.Name, sl.Sub, sl.NSub, res.DepthCompleted, sl.Depth, res.States, res.Transitions, res.Capped, time.Since(t0).Seconds())
 	}
+	r.Extra["states_re_executed_for_determinism_and_memory"] = float64(e.rebuilt)
 	if sl.Sub == 0 {
 		r.Extra["depth_completed:"+e.d.Name] = float64(res.DepthCompleted)
 		r.Extra["depth_bound:"+e.d.Name] = float64(sl.Depth)
@@ -270,7 +282,7 @@ func setup(r *report.Run, sl slot) *env {
 	w := world.New(world.Config{Stakes: world.StakesOf(stakes...), Users: []string{"adm", "U1", "R"}, Height: baseH})
 	ctx := w.Root
 	must(w.StdChain(ctx, ref))
-	e := &env{w: w, r: r, d: d, sl: sl, byHash: map[string]int{}, valIdx: map[string]int{}, rcv: w.User("R"), shardDepth: 2, txCache: map[string]sdk.Tx{}}
+	e := &env{w: w, r: r, d: d, sl: sl, byHash: map[string]int{}, valIdx: map[string]int{}, rcv: w.User("R"), shardDepth: 2, txCache: map[string]sdk.Tx{}, anchors: map[string]*explore.Node{}, keepDepth: sl.Depth}
 	denom, err := w.BridgeToken(ctx, w.User("adm"), "t1", ref, erc20Reg, 1000, w.User("U1"))
 	must(err)
 	e.denom = denom
@@ -366,8 +378,9 @@ func (e *env) setPowers(ctx sdk.Context, ps []int64) error {
 func (e *env) hash(n *explore.Node) string {
 	ps, t := e.powers(n.Ctx)
 	h := sha256.Sum256([]byte(fmt.Sprint(n.Ghost.Key(), "|", e.w.StoreDigest(n.Ctx, "skyway"), "|", ps, t)))
-	if len(n.Path) >= e.sl.Depth {
-		// a state at the depth bound is never expanded: release its store overlay (most states are on the last level)
+	if len(n.Path) > e.keepDepth || len(n.Path) >= e.sl.Depth {
+		// release the store overlay: a state at the depth bound is never expanded (most states are on the last
+		// level); the others are rebuilt when they are expanded (see ops)
 		n.Ctx = sdk.Context{}
 	}
 	return string(h[:16])
@@ -546,11 +559,55 @@ func (e *env) bump(k string) {
 	e.r.Extra[k] = f + 1
 }
 
+// ops is what the explorer calls for a state it is about to expand. To bound
+// memory, states deeper than keepDepth do not keep their store overlay (hash
+// drops it); it is rebuilt here by re-executing the last steps of the state's
+// path from its retained ancestor at keepDepth. The rebuilt ghost must equal the
+// recorded one (determinism self-check; a mismatch is a harness error).
 func (e *env) ops(n *explore.Node) []explore.Op {
+	d := len(n.Path)
+	if d == e.keepDepth {
+		e.anchors[strings.Join(n.Path, "|")] = n
+	}
+	if d > e.keepDepth {
+		a := e.anchors[strings.Join(n.Path[:e.keepDepth], "|")]
+		if a == nil {
+			panic("c02: no retained ancestor for " + strings.Join(n.Path, " "))
+		}
+		cur := &explore.Node{Ctx: world.Fork(a.Ctx), Ghost: a.Ghost.Clone(), Path: append([]string{}, a.Path...)}
+		e.rebuilding = true
+		for _, label := range n.Path[e.keepDepth:] {
+			found := false
+			for _, op := range e.rawOps(cur) {
+				if op.Label != label {
+					continue
+				}
+				if f := op.Do(&cur.Ctx, cur.Ghost); f != nil {
+					panic("c02: re-execution of " + strings.Join(n.Path, " ") + " fails: " + f.Message)
+				}
+				cur.Path = append(cur.Path, label)
+				found = true
+				break
+			}
+			if !found {
+				panic("c02: re-execution of " + strings.Join(n.Path, " ") + ": step " + label + " not enabled")
+			}
+		}
+		e.rebuilding = false
+		if cur.Ghost.Key() != n.Ghost.Key() {
+			panic("c02: re-execution of " + strings.Join(n.Path, " ") + " gives a different reference state (nondeterminism)")
+		}
+		n.Ctx = cur.Ctx
+		e.rebuilt++
+	}
+	return e.rawOps(n)
+}
+
+func (e *env) rawOps(n *explore.Node) []explore.Op {
 	w := e.w
 	g0 := n.Ghost.(*ghost)
 	// prefix levels are executed by every worker of a distribution: count them once
-	count := e.sl.Sub == 0 || len(n.Path) >= e.shardDepth
+	count := !e.rebuilding && (e.sl.Sub == 0 || len(n.Path) >= e.shardDepth)
 	var ops []explore.Op
 	add := func(label string, do func(ctx *sdk.Context, g *ghost) *explore.Fail) {
 		ops = append(ops, explore.Op{Label: label, Do: func(ctx *sdk.Context, gg explore.Ghost) *explore.Fail {
